@@ -1,7 +1,94 @@
 import TTV.Sexp
-/-! Driver glue for C15 — stub, replaced when the property's model is built. -/
-namespace TTV.Drv.C15
-open TTV
+import TTV.Model.Spinner
+import TTV.Spec.C15
+/-! Driver glue for C15: codecs between S-expressions and `Spinner.Input` / `Spinner.Trace`.
 
-def handle (_ : List Sexp) : Sexp := .atom "unimplemented"
+Input : `(debug (step …))`, step = `(run T ((d act) …) (op …) term)` | `clear`,
+        op = `(later d act)` | `(now act)`, term = `(ret v)` | `(raise e)` | `deferred`,
+        act = `(fire v)` | `(fail e)` | `stop` | `noop` | `addsel` | `(setsig s h)` | `(reenter T|F)`
+Trace : `(obs …)`, obs = `(run result ((t lbl) …) (result …) (junk …) pending sels running stopRestored (sig …) (sig …) elapsed)`
+        | `(cleared (junk …))`, lbl = n | `timeout`, junk = `(call lbl)` | `(sel n)` -/
+namespace TTV.Drv.C15
+open TTV TTV.Sexp TTV.Reactor TTV.Spinner
+
+def act? : Sexp → Option Act
+  | .list [.atom "fire", v] => (nat? v).map .fire
+  | .list [.atom "fail", e] => (nat? e).map .fail
+  | .atom "stop" => some .stop
+  | .atom "noop" => some .noop
+  | .atom "addsel" => some .addSel
+  | .list [.atom "setsig", s, h] => do some (.setSig (← nat? s) (← nat? h))
+  | .list [.atom "reenter", b] => (bool? b).map .reenter
+  | _ => none
+
+def op? : Sexp → Option Op
+  | .list [.atom "later", d, a] => do some (.later (← nat? d) (← act? a))
+  | .list [.atom "now", a] => (act? a).map .now
+  | _ => none
+
+def term? : Sexp → Option Term
+  | .list [.atom "ret", v] => (nat? v).map .ret
+  | .list [.atom "raise", e] => (nat? e).map .raise
+  | .atom "deferred" => some .deferred
+  | _ => none
+
+def step? : Sexp → Option Step
+  | .list [.atom "run", t, pre, body, term] => do
+      some (.run { timeout := ← nat? t, pre := ← list? (pair? nat? act?) pre, body := ← list? op? body, term := ← term? term })
+  | .atom "clear" => some .clearJunk
+  | _ => none
+
+def input? : Sexp → Option Input
+  | .list [d, steps] => do some { debug := ← bool? d, steps := ← list? step? steps }
+  | _ => none
+
+def res? : Sexp → Option Res
+  | .list [.atom "value", v] => (nat? v).map .value
+  | .list [.atom "raised", e] => (nat? e).map .raised
+  | .atom "timeout" => some .timeout
+  | .atom "noresult" => some .noresult
+  | .atom "reentry" => some .reentry
+  | .atom "stalejunk" => some .stalejunk
+  | _ => none
+def ofRes : Res → Sexp
+  | .value v => tag "value" [ofNat v]
+  | .raised e => tag "raised" [ofNat e]
+  | .timeout => .atom "timeout"
+  | .noresult => .atom "noresult"
+  | .reentry => .atom "reentry"
+  | .stalejunk => .atom "stalejunk"
+
+def lbl? : Sexp → Option Lbl
+  | .atom "timeout" => some .timeout
+  | x => (nat? x).map .user
+def ofLbl : Lbl → Sexp
+  | .timeout => .atom "timeout"
+  | .user n => ofNat n
+
+def junk? : Sexp → Option Junk
+  | .list [.atom "call", l] => (lbl? l).map .call
+  | .list [.atom "sel", n] => (nat? n).map .sel
+  | _ => none
+def ofJunk : Junk → Sexp
+  | .call l => tag "call" [ofLbl l]
+  | .sel n => tag "sel" [ofNat n]
+
+def obs? : Sexp → Option Obs
+  | .list [.atom "run", r, ev, re, j, p, s, run, sr, sb, sa, el] => do
+      some (.run { result := ← res? r, events := ← list? (pair? nat? lbl?) ev, reentries := ← list? res? re,
+                   junk := ← list? junk? j, pending := ← nat? p, sels := ← nat? s, running := ← bool? run,
+                   stopRestored := ← bool? sr, sigBefore := ← list? nat? sb, sigAfter := ← list? nat? sa,
+                   elapsed := ← nat? el })
+  | .list [.atom "cleared", j] => (list? junk? j).map .cleared
+  | _ => none
+def ofObs : Obs → Sexp
+  | .run o => tag "run" [ofRes o.result, ofList (ofPair ofNat ofLbl) o.events, ofList ofRes o.reentries,
+                         ofList ofJunk o.junk, ofNat o.pending, ofNat o.sels, ofBool o.running, ofBool o.stopRestored,
+                         ofList ofNat o.sigBefore, ofList ofNat o.sigAfter, ofNat o.elapsed]
+  | .cleared j => tag "cleared" [ofList ofJunk j]
+
+def drv : PropDrv Input Trace :=
+  { decI := input?, decT := list? obs?, encT := ofList ofObs, model := model, clauses := Spec.C15.clauses }
+
+def handle : List Sexp → Sexp := drv.handle
 end TTV.Drv.C15
